@@ -104,7 +104,7 @@ def run(tier, work):
     hists, gs = vlib.generate(SPEC, "CallOutGen", "GenQuick.cfg" if tier == "quick" else "GenThorough.cfg", work, "p2a")
     nsim = 1500 if tier == "quick" else 30000
     sims, _ = vlib.generate(SPEC, "CallOutGen", "GenSim.cfg", work, "p2b", workers=4,
-                            simulate="num=%d" % (nsim // 4), extra=["-depth", "8", "-seed", str(vlib.SEED)], timeout=900)
+                            simulate="num=%d" % nsim, extra=["-depth", "8", "-seed", str(vlib.SEED)], timeout=900)
     rnd = random.Random(vlib.SEED)
     sims.sort(key=lambda h: json.dumps(h, sort_keys=True))
     rnd.shuffle(sims)
